@@ -272,6 +272,12 @@ def degenerate(x):
     return x["kind"] == "seq" and not x["rtrees"] and x["nadd"] == 0
 
 
+def has_setof(c):
+    """a SET OF somewhere: the order of the elements is not part of the value (DER and UPER sort them, each by its own
+    encodings; OER writes them as stored), so octets and model value strings are compared through DER only"""
+    return "t" in c["x"]["ety"]
+
+
 def replay_of(case, **kw):
     d = {"module": case["m"]["text"], "type": case["tn"], "model_type": case["x"]["ety"], "value": case["vs"][:4000], "category": case["cat"]}
     d.update(kw)
@@ -458,7 +464,10 @@ def run_c01(run, rng, tier):
                 if c[key] != "NONE":
                     q("dec", c, "dec %s %s %s" % (c["tn"], s, c[key]), (s, key))
             if c["uper"] != "NONE" and c["oer"] != "NONE" and not over64(c) and not idx_over63(c) and not degenerate(c["x"]):
-                q("chain", c, "xcode %s uper %s oer" % (c["tn"], c["uper"]), c["oer"])
+                if has_setof(c):
+                    q("chain", c, "xcode %s uper %s der" % (c["tn"], c["uper"]), c["der"])
+                else:
+                    q("chain", c, "xcode %s uper %s oer" % (c["tn"], c["uper"]), c["oer"])
                 q("chain", c, "xcode %s oer %s der" % (c["tn"], c["oer"]), c["der"])
                 q("chain", c, "xcode %s oer %s uper" % (c["tn"], c["oer"]), c["uper"])
             for t in c["tr"]:
@@ -503,7 +512,7 @@ def run_c01(run, rng, tier):
                                             expected_prefix="OK %d %s" % (nb, c["der"]), model=c["md"].get(s)))
                     continue
                 mo = c["md"].get(s)
-                if mo is not None and mo != "OK %d %s" % (nb, c["vs"]):
+                if mo is not None and mo != "OK %d %s" % (nb, c["vs"]) and not (has_setof(c) and mo.startswith("OK %d " % nb)):
                     run.violation("ext:model:%s_dec" % s, replay_of(c, what="the model's own decoder does not return the value it encoded (model defect)", model=mo), no_input=True)
             elif kind == "chain":
                 if o != "OK " + extra:
@@ -546,7 +555,7 @@ def check_truncated(run, c, t, s, line, o):
         agree = not c_ok
     else:
         mf = m0.split()
-        agree = c_ok and len(f) >= 3 and f[1] == mf[1] and (unknown_alt or (mf[2] == t["tvs"]) == (f[2] == t.get("xder")))
+        agree = c_ok and len(f) >= 3 and f[1] == mf[1] and (unknown_alt or has_setof(c) or (mf[2] == t["tvs"]) == (f[2] == t.get("xder")))
     if not agree:
         spec_ok = (want is not None and o.startswith(want + " ck="))
         run.violation("ext:correspondence:truncated(%s)" % s, dict(rp, what="decoding with an older version of the type: the C and its model disagree",
@@ -556,7 +565,7 @@ def check_truncated(run, c, t, s, line, o):
     if unknown_alt:
         return
     if o.startswith(want + " ck="):
-        if m1 != "OK %d %s" % (nb, t["tvs"]):
+        if m1 != "OK %d %s" % (nb, t["tvs"]) and not (has_setof(c) and m1.startswith("OK %d " % nb)):
             run.violation("ext:model:truncated(%s)" % s, dict(rp, what="the standard reading of the model does not return the known part (model defect)", standard=m1), no_input=True)
         return
     if s == "uper" and m0 != m1:
